@@ -515,7 +515,10 @@ def run_case(c):
             Cs = np.asarray(Cs)
             out['ops'].append('subgraph')
             ref = np.diag(sla.expm(A))
-            if Cs.shape != (n,) or not close(Cs, ref, tol):
+            # floating-point accuracy of a matrix exponential is relative to its largest entry (a barbell has exp(20) next to
+            # path nodes of order 1): per-entry 1e-8 plus 1e-11 of the largest entry
+            okx = Cs.shape == (n,) and np.all(np.isfinite(Cs)) and bool(np.all(np.abs(Cs - ref) <= tol * np.maximum(1.0, np.abs(ref)) + 1e-11 * ka * np.abs(ref).max()))
+            if not okx:
                 fail('subgraph_centrality', 'expm-diagonal', {'Cs': np.asarray(Cs).tolist(), 'expm_diag': ref.tolist()})
             if den == 1 and not single and n <= NMODEL:
               out['lines'].append(('expdiag', 'expdiag n=%d A=%s terms=%d' % (n, mstr, n_terms(A)), {'S': np.asarray(Cs, dtype=float).tolist()}))
